@@ -65,6 +65,13 @@ pub struct Monitors {
     verified_qcs: HashSet<u64>,
     pub distinct_states: HashSet<u64>,
     pub max_view: u64,
+    /// last snapshot per node (pre-state of the next step)
+    last_snap: Vec<Option<Snapshot>>,
+    /// per node: latest view for which a commit / timeout vote of each validator was accepted (this incarnation)
+    seen_commit: Vec<BTreeMap<validator::PublicKey, u64>>,
+    seen_timeout: Vec<BTreeMap<validator::PublicKey, u64>>,
+    /// per node: block height known to be stored (from QueueBlock events)
+    stored_next: Vec<u64>,
 }
 
 impl Monitors {
@@ -86,6 +93,10 @@ impl Monitors {
             verified_qcs: HashSet::new(),
             distinct_states: HashSet::new(),
             max_view: 0,
+            last_snap: vec![None; n],
+            seen_commit: vec![BTreeMap::new(); n],
+            seen_timeout: vec![BTreeMap::new(); n],
+            stored_next: vec![0; n],
         }
     }
 
@@ -152,6 +163,7 @@ impl Monitors {
         }
         if n == want.0 {
             self.count("blocks_appended");
+            self.stored_next[node] = n + 1;
         }
     }
 
@@ -390,6 +402,151 @@ impl Monitors {
         // a write that was not applied does not bind the next incarnation: the floor is the durable state
         self.floor[node] = Some(triple_of_state(&s));
         self.snap_floor[node] = None;
+        self.last_snap[node] = None;
+        self.seen_commit[node].clear();
+        self.seen_timeout[node].clear();
+    }
+
+    /// C05(4), reaction oracle: accept/reject and the resulting state prescribed by spec/informal-spec/replica.rs
+    /// (with the implementation's documented refinements), computed from the pre-state snapshot.
+    /// Returns nothing; mismatches are alerts. `None` expectation = the spec leaves it to timing (e.g. a proposal whose
+    /// previous block is not stored yet is accepted iff the block arrives before the view deadline).
+    fn check_reaction(&mut self, node: usize, pre: &Snapshot, msg: &validator::Signed<ConsensusMsg>, accepted: bool, post: &Snapshot) {
+        let ConsensusMsg::V2(m) = &msg.msg;
+        let cur = pre.view.0;
+        let member = self.c.index_of(&msg.key).is_some();
+        let sig_ok = msg.verify().is_ok();
+        let g = self.c.genesis_hash();
+        let e0 = validator::EpochNumber(0);
+        let (class, expect): (&str, Option<bool>) = match m {
+            ChonkyMsg::LeaderProposal(p) => {
+                let v = p.view().number.0;
+                if v < cur || (v == cur && pre.phase != Phase::Prepare) {
+                    ("proposal/old", Some(false))
+                } else if self.c.schedule.view_leader(validator::ViewNumber(v)) != msg.key {
+                    ("proposal/wrong-leader", Some(false))
+                } else if !sig_ok {
+                    ("proposal/bad-signature", Some(false))
+                } else if !self.just_ok(&p.justification) || p.view().genesis != g || p.view().epoch != e0 {
+                    ("proposal/invalid-justification", Some(false))
+                } else {
+                    let (num, implied) = p.justification.get_implied_block(&self.c.schedule, self.c.genesis.first_block);
+                    match (implied, &p.proposal_payload) {
+                        (Some(_), Some(_)) => ("proposal/reproposal-with-payload", Some(false)),
+                        (Some(_), None) => ("proposal/valid-reproposal", Some(true)),
+                        (None, None) => ("proposal/missing-payload", Some(false)),
+                        (None, Some(pl)) => {
+                            if pl.len() > crate::world::MAX_PAYLOAD {
+                                ("proposal/oversized", Some(false))
+                            } else if num.0 > self.stored_next[node].max(self.c.genesis.first_block.0) {
+                                // previous block not stored when the step began: accepted iff it arrives before the view deadline
+                                ("proposal/previous-block-missing", None)
+                            } else if crate::engine::is_bad_payload(pl) {
+                                ("proposal/payload-refused-by-execution", Some(false))
+                            } else {
+                                ("proposal/valid-new-block", Some(true))
+                            }
+                        }
+                    }
+                }
+            }
+            ChonkyMsg::ReplicaCommit(v) => {
+                let view = v.view.number.0;
+                if !member {
+                    ("commit/non-member", Some(false))
+                } else if view < cur {
+                    ("commit/old", Some(false))
+                } else if self.seen_commit[node].get(&msg.key).map_or(false, |l| *l >= view) {
+                    ("commit/duplicate-or-stale-for-signer", Some(false))
+                } else if !sig_ok {
+                    ("commit/bad-signature", Some(false))
+                } else if v.view.genesis != g || v.view.epoch != e0 {
+                    ("commit/other-chain-or-epoch", Some(false))
+                } else {
+                    ("commit/valid", Some(true))
+                }
+            }
+            ChonkyMsg::ReplicaTimeout(t) => {
+                let view = t.view.number.0;
+                if !member {
+                    ("timeout/non-member", Some(false))
+                } else if view < cur {
+                    ("timeout/old", Some(false))
+                } else if self.seen_timeout[node].get(&msg.key).map_or(false, |l| *l >= view) {
+                    ("timeout/duplicate-or-stale-for-signer", Some(false))
+                } else if !sig_ok {
+                    ("timeout/bad-signature", Some(false))
+                } else if t.verify(g, e0, &self.c.schedule).is_err() {
+                    ("timeout/invalid-content", Some(false))
+                } else {
+                    ("timeout/valid", Some(true))
+                }
+            }
+            ChonkyMsg::ReplicaNewView(nv) => {
+                let view = nv.view().number.0;
+                if view < cur {
+                    ("new-view/old", Some(false))
+                } else if view == cur && self.c.schedule.view_leader(validator::ViewNumber(cur)) != msg.key {
+                    ("new-view/current-view-not-from-leader", Some(false))
+                } else if !member {
+                    ("new-view/non-member", Some(false))
+                } else if !sig_ok {
+                    ("new-view/bad-signature", Some(false))
+                } else if !self.just_ok(&nv.justification) || nv.view().genesis != g || nv.view().epoch != e0 {
+                    ("new-view/invalid-justification", Some(false))
+                } else if view == cur {
+                    ("new-view/current-view-from-leader", Some(true))
+                } else {
+                    ("new-view/future-valid", Some(true))
+                }
+            }
+        };
+        self.count(&format!("reaction_{}_{}_{}", format!("{:?}", pre.phase).to_lowercase(), class, if accepted { "accepted" } else { "rejected" }));
+        self.count("reactions_checked");
+        if let Some(want) = expect {
+            if want != accepted {
+                self.alert("C05", format!("reaction-differs-from-spec||{class}"), format!("node {node} in view {cur} phase {:?} {} a message of class {class} (signer {:?}); the specification prescribes {}", pre.phase, if accepted { "ACCEPTED" } else { "REJECTED" }, self.c.index_of(&msg.key), if want { "accept" } else { "reject" }));
+            }
+        }
+        // resulting state
+        let unchanged = pre.view == post.view && pre.phase == post.phase && pre.high_vote == post.high_vote
+            && pre.high_commit_qc.as_ref().map(|q| q.view().number) == post.high_commit_qc.as_ref().map(|q| q.view().number)
+            && pre.high_timeout_qc.as_ref().map(|q| q.view.number) == post.high_timeout_qc.as_ref().map(|q| q.view.number);
+        if !accepted && !unchanged {
+            self.alert("C05", format!("rejected-message-changed-state||{class}"), format!("node {node}: a rejected message of class {class} changed view/phase/high vote/certificates: {:?}/{:?} -> {:?}/{:?}", pre.view, pre.phase, post.view, post.phase));
+        }
+        if accepted {
+            match m {
+                ChonkyMsg::LeaderProposal(p) => {
+                    let ok = post.view == p.view().number && post.phase == Phase::Commit && post.high_vote.as_ref().map(|h| h.view.number) == Some(p.view().number);
+                    if !ok {
+                        self.alert("C05", "state-after-proposal||", format!("node {node}: after accepting a proposal for view {} the state is view {} phase {:?} high vote {:?}", p.view().number.0, post.view.0, post.phase, post.high_vote.as_ref().map(|h| h.view.number.0)));
+                    }
+                }
+                ChonkyMsg::ReplicaCommit(v) => {
+                    self.seen_commit[node].insert(msg.key.clone(), v.view.number.0);
+                    // either nothing changes (no certificate yet) or the replica enters view+1 in Prepare holding the certificate
+                    let advanced = post.view.0 == v.view.number.0 + 1 && post.phase == Phase::Prepare && post.high_commit_qc.as_ref().map(|q| q.view().number.0) == Some(v.view.number.0);
+                    if !unchanged && !advanced {
+                        self.alert("C05", "state-after-commit-vote||", format!("node {node}: accepting a commit vote for view {} led from view {} {:?} to view {} {:?}", v.view.number.0, pre.view.0, pre.phase, post.view.0, post.phase));
+                    }
+                }
+                ChonkyMsg::ReplicaTimeout(t) => {
+                    self.seen_timeout[node].insert(msg.key.clone(), t.view.number.0);
+                    let advanced = post.view.0 == t.view.number.0 + 1 && post.phase == Phase::Prepare && post.high_timeout_qc.as_ref().map(|q| q.view.number.0) == Some(t.view.number.0);
+                    if !unchanged && !advanced {
+                        self.alert("C05", "state-after-timeout-vote||", format!("node {node}: accepting a timeout vote for view {} led from view {} {:?} to view {} {:?}", t.view.number.0, pre.view.0, pre.phase, post.view.0, post.phase));
+                    }
+                }
+                ChonkyMsg::ReplicaNewView(nv) => {
+                    let v = nv.view().number;
+                    let ok = if v.0 > cur { post.view == v && post.phase == Phase::Prepare } else { post.view == pre.view && post.phase == pre.phase };
+                    if !ok {
+                        self.alert("C05", "state-after-new-view||", format!("node {node}: accepting a new-view for view {} led from view {} {:?} to view {} {:?}", v.0, pre.view.0, pre.phase, post.view.0, post.phase));
+                    }
+                }
+            }
+        }
     }
 
     fn on_step(&mut self, node: usize, kind: StepKind, snap: Snapshot) {
@@ -406,6 +563,12 @@ impl Monitors {
             self.check_monotone(node, fl, t, "after-restart");
         }
         self.snap_floor[node] = Some(t);
+        if let StepKind::Message { accepted, msg } = &kind {
+            if let Some(pre) = self.last_snap[node].clone() {
+                self.check_reaction(node, &pre, msg, *accepted, &snap);
+            }
+        }
+        self.last_snap[node] = Some(snap.clone());
         match &kind {
             StepKind::Message { accepted, msg } => {
                 let ConsensusMsg::V2(m) = &msg.msg;
